@@ -61,7 +61,7 @@ func (f *flagTr) target(e ast.Expr, vars map[string]string, locals map[string]st
 	}
 	ev2 := &env{vars: locals}
 	if a, ok := f.t.access(e, ev2); ok && len(a.path) > 0 {
-		return "local:" + a.root + ":" + locals[a.root], a.path, true
+		return "local:" + locals[a.root] + ":" + locals[a.root], a.path, true // named by its type: renaming the variable is harmless
 	}
 	return "", nil, false
 }
@@ -200,7 +200,7 @@ func (f *flagTr) stmts(list []ast.Stmt, vars map[string]string, locals map[strin
 								root, path, ok1 := f.target(as.Lhs[0], vars, locals)
 								if u2, ok2 := as.Rhs[0].(*ast.UnaryExpr); ok1 && ok2 && u2.Op == token.AND {
 									if id, ok := u2.X.(*ast.Ident); ok && locals[id.Name] != "" {
-										add(binding{flag: name, short: short, kind: "Var:" + tn + ":TrueFunc:=&" + id.Name, root: root, path: path})
+										add(binding{flag: name, short: short, kind: "Var:" + tn + ":TrueFunc:=&local:" + locals[id.Name], root: root, path: path})
 										done = true
 									}
 								}
